@@ -113,6 +113,7 @@ fn main() {
     }
     let args = Args::parse(&argv[1..]);
     sim::install_quiet_panic_hook();
+    sim::set_depth(args.u64("depth").unwrap_or(0) as u8);
     let code = match argv[0].as_str() {
         "run" => cmd_run(&args),
         "check" => cmd_check(&args),
@@ -290,6 +291,7 @@ fn cmd_replay(args: &Args) -> i32 {
             }
         };
         let g = |k: &str| c.get(k).and_then(|x| x.as_u64()).unwrap_or(0);
+        sim::set_depth(g("depth") as u8);
         let kind = c.get("kind").and_then(|x| x.as_str()).unwrap_or("seeded").to_string();
         let seed = file.get("verif_seed").and_then(|x| x.as_u64()).unwrap_or(DEFAULT_SEED);
         return match file.get("property_id").and_then(|x| x.as_str()) {
@@ -313,7 +315,7 @@ fn tier_runs(tier: &str) -> u64 {
         return n;
     }
     match tier {
-        "thorough" => 60_000_000,
+        "thorough" => 40_000_000,
         _ => 2_000_000,
     }
 }
@@ -321,7 +323,7 @@ fn tier_runs(tier: &str) -> u64 {
 fn spawn_run(bin: &Path, prop: &str, root: &Path, profile: &str, seed: u64, runs: u64, workers: usize, out: &Path, digests: Option<&Path>) -> Result<(i32, J, String), String> {
     let _ = std::fs::remove_file(out);
     let mut cmd = std::process::Command::new(bin);
-    cmd.arg("run").arg("--prop").arg(prop).arg("--root").arg(root).arg("--profile").arg(profile).arg("--seed").arg(seed.to_string()).arg("--runs").arg(runs.to_string()).arg("--workers").arg(workers.to_string()).arg("--out").arg(out);
+    cmd.arg("run").arg("--prop").arg(prop).arg("--root").arg(root).arg("--profile").arg(profile).arg("--seed").arg(seed.to_string()).arg("--runs").arg(runs.to_string()).arg("--workers").arg(workers.to_string()).arg("--depth").arg(sim::depth().to_string()).arg("--out").arg(out);
     if let Some(d) = digests {
         cmd.arg("--dump-digests").arg(d);
     }
@@ -366,6 +368,7 @@ fn cmd_check(args: &Args) -> i32 {
     }
     let seed = seed_from_env();
     let runs = tier_runs(&tier);
+    sim::set_depth(if tier == "thorough" { 1 } else { 0 });
     let workers = workers_default();
     println!("ckc-sim check property={} tier={} VERIF_SEED={} runs_per_profile={} workers={}", prop, tier, seed, runs, workers);
 
@@ -545,7 +548,7 @@ fn cmd_check(args: &Args) -> i32 {
         .with("invariant_evaluations", J::u(inv))
         .with("nontrivial_seeded_runs_one_profile", J::u(g(p, "nontrivial_runs")))
         .with("runs_per_hour", J::u(if wall > 0.0 { (evaluations as f64 / wall * 3600.0) as u64 } else { 0 }))
-        .with("seeds", J::obj().with("base", J::u(seed)).with("derivation", J::str("seed_i = splitmix64(base ^ (i+1)*0x9E3779B97F4A7C15); run i uses xoshiro256**(seed_i)")).with("runs_per_profile", J::u(runs)))
+        .with("exploration_depth", J::Str(if sim::depth() >= 1 { "thorough: every second seeded run is drawn from the deep distribution (one in 8 a long-lived history of 200-1000 operations on up to four objects; texts of up to 300 tokens)".into() } else { "quick: standard swarm (one run in 256 is a long-lived history of 200-600 operations)".into() })).with("seeds", J::obj().with("base", J::u(seed)).with("derivation", J::str("seed_i = splitmix64(base ^ (i+1)*0x9E3779B97F4A7C15); run i uses xoshiro256**(seed_i)")).with("runs_per_profile", J::u(runs)))
         .with("simulated_time", J::str("no clock in the system; logical steps only (steps_total)"))
         .with("faults_injected", J::obj())
         .with("fault_census", fault_census)
